@@ -7,6 +7,7 @@ CONSTANTS
   MaxDeviate = 1
   KLMs = {123, 312}
   FactorKindsC14 = {"Rank1", "Linear", "Const"}
+  Warm = {"none"}
 INIT Init
 NEXT Next
 CHECK_DEADLOCK FALSE
